@@ -46,6 +46,7 @@ class Sim:
         self.locals = {}
         self.params = params or {}
         self.depth = 0
+        self.hook = None
         self.finals = []
         same = scenario.get("self")
         for name, fld in self.fields.items():
@@ -284,6 +285,10 @@ class Sim:
                 self.assign(args[0], v, e, free=False)
                 return ("top", "void")
         g = self.F.by_fid.get(c.get("fid")) if c.get("fid") is not None else None
+        if g is not None and self.hook is not None:
+            r = self.hook(g, e, self)
+            if r is not NotImplemented:
+                return r
         if g is not None and g.get("cls") == self.cls and g.get("body") is not None and (obj is None or self.owner_of(obj) == "this" or obj.get("k") == "this"):
             if self.depth > 6:
                 raise Unknown("call depth")
